@@ -1312,8 +1312,147 @@ pub fn run_prop(ctx: &mut Ctx, prop: &str) {
             }
             ctx.flush_model("C05-pst13");
         }
+        "C07" => {
+            let n = ctx.n(24, 300);
+            for i in 0..n {
+                blinding_case(ctx, i);
+            }
+            ctx.flush_model("C07-pst13");
+        }
         _ => {}
     }
+}
+
+/// C07: the blinding polynomial of a hiding PST13 commitment is built from exactly
+/// `1 + num_vars·(hb+1)` field draws of the caller's RNG (replayed from a clone, in order:
+/// constant, then per variable the degrees 1..hb+1); without hiding the RNG is untouched and the
+/// proof carries no `random_v`; with hiding `random_v` is the blinding value at the point.
+fn blinding_case(ctx: &mut Ctx, i: usize) {
+    let id = format!("C07/pst13/{}", i);
+    if !ctx.selected(&id) {
+        return;
+    }
+    let mut rng = rng_for(ctx.seed, "C07/pst13", i as u64);
+    let nv = range(&mut rng, 1, if ctx.thorough { 4 } else { 3 });
+    let d = range(&mut rng, 1, 4);
+    let s = range(&mut rng, 1, d);
+    let trap = Trap::random(&mut rng, nv, d);
+    let pp = trap.params();
+    let (ck, vk): (CK, VK) = match guarded(|| PC::trim(&pp, s, 0, None)) {
+        Ok(Ok(x)) => x,
+        _ => return,
+    };
+    let (p, kind) = gen_poly(&mut rng, nv, s);
+    let hb = if i % 3 == 0 { None } else { Some(range(&mut rng, 1, s)) };
+    let head = format!("{}# s={} p={} hb={:?} case={} seed={}\n", trap.desc(), s, poly_val(&p), hb, id, ctx.seed);
+    let lp = LabeledPolynomial::new("p".to_string(), p.clone(), None, hb);
+    // replay the draws the committer is expected to take
+    let mut replay = rng.clone();
+    let ndraws = hb.map(|h| 1 + nv * (h + 1)).unwrap_or(0);
+    let draws: Vec<Fr> = (0..ndraws).map(|_| Fr::rand(&mut replay)).collect();
+    let (comms, states): (Vec<LabeledCommitment<Comm>>, Vec<Rand>) =
+        match guarded(|| PC::commit(&ck, [&lp], Some(&mut rng))) {
+            Ok(Ok(x)) => x,
+            other => {
+                ctx.rep.expect_fail(&id, "pst13/commit-refused", &format!("commit refused an in-domain request: {:?}", other.err().or(Some("Err".into()))), head);
+                return;
+            }
+        };
+    // the caller's RNG advanced by exactly those draws (none without hiding)
+    use ark_std::rand::RngCore;
+    if rng.clone().next_u64() != replay.clone().next_u64() {
+        ctx.rep.expect_fail(
+            &id,
+            "pst13/blinding-draw-count",
+            &format!("commit with hiding bound {:?} did not consume exactly {} field draws of the caller's RNG", hb, ndraws),
+            head.clone(),
+        );
+    }
+    let blind = states[0].blinding_polynomial.clone();
+    // expected blinding polynomial: the draws against 1, x_v^j in order
+    let mut terms = vec![];
+    if hb.is_some() {
+        let mut it = draws.iter();
+        terms.push((*it.next().unwrap(), SparseTerm::new(vec![])));
+        for v in 0..nv {
+            for j in 1..=hb.unwrap() + 1 {
+                terms.push((*it.next().unwrap(), SparseTerm::new(vec![(v, j)])));
+            }
+        }
+    }
+    let want = MvPoly::from_coefficients_vec(nv, terms);
+    if want != blind {
+        ctx.rep.expect_fail(&id, "pst13/blinding-not-from-draws", "blinding polynomial differs from the replayed draws against 1, x_v^j (j = 1..hb+1)", head.clone());
+    }
+    if hb.is_none() && !blind.is_zero() {
+        ctx.rep.expect_fail(&id, "pst13/blinding-without-hiding", "a non-hiding commitment carries a blinding polynomial", head.clone());
+    }
+    // commitment = plain + gamma-part
+    let plain = trap.g * p.evaluate(&trap.betas);
+    let cs = plain + trap.gamma * blind.evaluate(&trap.betas);
+    if g1(cs) != comms[0].commitment().comm.0 {
+        ctx.rep.expect_fail(&id, "pst13/commitment-not-plain-plus-gamma-part", "commitment != g·p(beta) + gamma·r(beta)", head.clone());
+    }
+    let mut extra = draws.clone();
+    extra.push(Fr::rand(&mut replay));
+    ctx.ses.ask(
+        &format!("{}/commit", id),
+        trap.key_args(Req::new("c15.commit"), s)
+            .arg("p", poly_val(&p))
+            .arg("hb", wire::opt_nat(hb))
+            .arg("rng", wire::boolean(true))
+            .arg("draws", wire::fes(&extra)),
+        ImplOutcome::Ok(vec![
+            ("c".into(), Expect::G1(comms[0].commitment().comm.0)),
+            ("blind".into(), Expect::Raw(poly_val(&blind))),
+            ("used".into(), Expect::Nat(ndraws)),
+        ]),
+    );
+    // random_v of the opening
+    let z: Vec<Fr> = (0..nv).map(|_| Fr::rand(&mut rng)).collect();
+    let mut sponge = fresh();
+    sponge.absorb_seed(0xC07 + i as u64);
+    let vsponge = sponge.clone();
+    if let Ok(Ok(proof)) = guarded(|| PC::open(&ck, [&lp], comms.iter(), &z, &mut sponge, states.iter(), None)) {
+        let xis = sponge.challenges();
+        let want_rv = if blind.is_zero() || xis.is_empty() { None } else { Some(xis[0] * blind.evaluate(&z)) };
+        if proof.random_v != want_rv && !(xis.first().map(|x| x.is_zero()).unwrap_or(false)) {
+            ctx.rep.expect_fail(&id, "pst13/random-v-not-blinding-value", &format!("random_v = {:?}, expected challenge·r(z) = {:?}", proof.random_v.map(|x| wire::fe(&x).to_string()), want_rv.map(|x| wire::fe(&x).to_string())), head.clone());
+        }
+        ctx.ses.ask(
+            &format!("{}/open", id),
+            trap.key_args(Req::new("c15.open"), s)
+                .arg("nvp", wire::nat(p.num_vars()))
+                .arg("nvr", wire::nat(blind.num_vars()))
+                .arg("ps", polys_val(&[p.clone()]))
+                .arg("z", wire::fes(&z))
+                .arg("rs", polys_val(&[blind.clone()]))
+                .arg("xis", wire::fes(&xis)),
+            ImplOutcome::Ok(vec![
+                ("w".into(), Expect::G1s(proof.w.clone())),
+                ("rv".into(), Expect::OptFe(proof.random_v)),
+            ]),
+        );
+        let (o, _) = check_impl(&vk, &comms, &z, &[p.evaluate(&z)], &proof, &vsponge);
+        if !accepted(&o) {
+            ctx.rep.expect_fail(&id, "pst13/honest-rejected", "honest (hiding) proof rejected", head.clone());
+        }
+    } else {
+        ctx.rep.expect_fail(&id, "pst13/open-refused", "open refused a committed polynomial", head.clone());
+    }
+    // hiding bound 0 is refused
+    if i % 6 == 1 {
+        let lp0 = LabeledPolynomial::new("p".to_string(), p.clone(), None, Some(0));
+        match guarded(|| PC::commit(&ck, [&lp0], Some(&mut rng))) {
+            Ok(Ok(_)) => ctx.rep.expect_fail(&id, "pst13/hiding-bound-zero-accepted", "commit accepted hiding bound 0", head.clone()),
+            _ => ctx.rep.count("pst13/hiding-bound-zero-refused"),
+        }
+    }
+    ctx.rep.count(if hb.is_some() { "pst13/c07-hiding" } else { "pst13/c07-non-hiding" });
+    ctx.rep.case(
+        &format!("pst13 blinding nv={} D={} s={} poly={} hb={:?} draws={}", nv, d, s, kind, hb, ndraws),
+        Some(format!("pst13-c07/{}/{}/{:?}/{}", nv, s, hb, kind)),
+    );
 }
 
 pub fn run(ctx: &mut Ctx) {
